@@ -538,12 +538,12 @@ def l88(nbits, n):
                 check(bf.contains(SeqNum(base) + r), 'contains() knows every number received inside the window', step=i)
 
 
-R.add('L8.8', l88, lambda tier: [dict(nbits=w, n=(3 if tier == 'quick' else 4)) for w in (8, 32, 256)],
-      desc='BitField built through its API only: 3 (thorough 4) insertions at representative offsets around every window boundary, bases at both ends of the ring: '
+R.add('L8.8', l88, lambda tier: [dict(nbits=w, n=3) for w in ((8, 32, 256) if tier == 'quick' else (8, 16, 32, 64, 128, 256))],
+      desc='BitField built through its API only: 3 insertions at representative offsets around every window boundary, bases at both ends of the ring: '
            'refused <=> received before inside the window; contains() agrees',
       expect=['insert() is refused exactly when the number was received before inside the window',
               'contains() knows every number received inside the window'],
-      bounds='widths 8 / 32 / 256; 3 (thorough 4) insertions; 17 representative offsets x 4 bases (finite domain, enumerated)')
+      bounds='widths 8 / 32 / 256 (thorough also 16 / 64 / 128); 3 insertions; 17 representative offsets x 4 bases (finite domain, enumerated)')
 
 # ------------------------------------------------------------------ L8.9 sequence arithmetic outside SeqNum: retransmitted fragments
 # code that recomputes a sequence number (instead of storing it) must use the ring's arithmetic: same harness as C06 L6.4,
